@@ -196,7 +196,14 @@ func genSeqCache(prop string, seed uint64, tier string, kinds []string) *SeqScen
 			sc.Ops = append(sc.Ops, Op{K: CSet, Key: i, Val: g.val(), D: d})
 			noteStore(i, d)
 		}
+		gcAt := -1
+		if g.r.Bool(0.01) {
+			gcAt = g.r.Intn(3)
+		}
 		for i := 0; i < 3+g.r.Intn(12); i++ {
+			if i == gcAt {
+				sc.Ops = append(sc.Ops, Op{K: XGC})
+			}
 			sc.Ops = append(sc.Ops, advance())
 			sc.Ops = append(sc.Ops, Op{K: CCount})
 		}
@@ -286,6 +293,9 @@ func genSeqCache(prop string, seed uint64, tier string, kinds []string) *SeqScen
 					// mutating visitors make later results depend on the visiting
 					// order, which legitimately differs between layouts
 					op.Vis = VisLoadOther
+				} else if g.r.Bool(0.25) {
+					op.Vis = VisAdvance // "unexpired when the traversal began" must hold although time passes
+					op.D = int64(1 + g.r.Intn(6))
 				}
 			}
 			if g.r.Bool(0.05) {
